@@ -46,6 +46,17 @@ def classify_exception(e):
     return tag, expected
 
 
+def _biased_form(case):
+    """The estimator flag in the form the case asks for (bool, NumPy bool, int)."""
+    form = case.get("biased_form", "bool")
+    b = bool(case["biased"])
+    if form == "np.bool":
+        return np.bool_(b)
+    if form == "int":
+        return int(b)
+    return b
+
+
 def stacked_reference(data, W):
     if isinstance(data, (list, tuple)):
         parts = [stack.stack_ref(np.asarray(s), W) for s in data]
@@ -94,7 +105,7 @@ def run_case(case):
     random.seed(case["rng_seed"])
     kw = dict(window_size=W, num_clusters=K, sparsity_weight=run.lam, label_switching_cost=run.beta,
               iteration_limit=case["limit"], min_meaningful_covariance=case["eps"], num_processors=case.get("nproc", 1),
-              min_cluster_size=case["m"], biased_covariance=case["biased"])
+              min_cluster_size=case["m"], biased_covariance=_biased_form(case))
     run.result = None
     run.exc = None
     arg = data
@@ -114,7 +125,7 @@ def run_case(case):
                 run.result = fast_ticc.ticc_joint_labels(arg, **kw)
             else:
                 run.result = fast_ticc.ticc_labels(arg, **kw)
-    except Exception as e:  # classified by the caller
+    except (Exception, KeyboardInterrupt, SystemExit) as e:  # classified by the caller (the last two only ever come from injected faults)
         run.exc = e
         run.exc_tag, run.exc_expected = classify_exception(e)
     finally:
@@ -354,7 +365,9 @@ def evaluate(run, want=None):
             if got_S.shape != S.shape or not np.array_equal(np.isnan(got_S), np.isnan(S)):
                 I.v("C12", "round %d cluster %d: covariance shape/NaN pattern differs from the %s estimator" % (r, k, "biased" if biased else "unbiased"))
             elif finite.all():
-                atol = 1e-9 * float(np.max(np.abs(S))) + 1e-12 * scale * scale
+                # rounding of a two-pass estimate: the mean is exact to eps*|x|, so the centred data carry an error eps*scale
+                dmax = float(np.max(np.abs(Xk - mu[None, :])))
+                atol = 1e-9 * float(np.max(np.abs(S))) + 256 * gauss.EPS * scale * max(dmax, 1e-300) + 1e-300
                 if not np.all(np.abs(got_S - S) <= atol + 1e-9 * np.abs(S)):
                     I.v("C12", "round %d cluster %d (%d windows): covariance is not X^T X/(n-%d) of its own windows (max dev %.3g, scale %.3g)" % (
                         r, k, len(mem), 0 if biased else 1, float(np.max(np.abs(got_S - S))), float(np.max(np.abs(S)))))
@@ -643,9 +656,13 @@ def evaluate(run, want=None):
             else:
                 tol = 2 * mb + 1e-9 * float(np.max(np.abs(sel)))
                 if abs(cm_[k] - float(np.mean(sel))) > tol:
-                    I.v("C06", "cluster %d mean %r is not the mean %r over exactly its %d points" % (k, cm_[k], float(np.mean(sel)), len(sel)))
+                    for pr in ("C06", "C05"):
+                        I.v(pr, "cluster %d mean %r is not the mean %r of the log-densities of exactly its %d points" % (k, cm_[k], float(np.mean(sel)), len(sel)))
                 if abs(cmed[k] - float(np.median(sel))) > tol:
-                    I.v("C06", "cluster %d median %r is not the median %r over exactly its %d points" % (k, cmed[k], float(np.median(sel)), len(sel)))
+                    for pr in ("C06", "C05"):
+                        I.v(pr, "cluster %d median %r is not the median %r of the log-densities of exactly its %d points" % (k, cmed[k], float(np.median(sel)), len(sel)))
+                if len(sel) == 1:
+                    I.c("final_singleton_clusters")
     # cost equation, within-series pairs
     tmpl = template_ref(lens)
     within = beta_vec * tmpl
